@@ -17,7 +17,7 @@ import (
 func init() {
 	register(&Rule{ID: "R-SLOTPTR", Min: 30, Run: ruleSlotPtr,
 		Doc: "in package logicalplan every *parser.Expr handed to a traversal, a callback or a helper is the caller's own pointer, the address of a field or slice element of the node (a real slot of the tree), or the address of a root local that is read again after the call; never the address of a loop copy"})
-	register(&Rule{ID: "R-DISTTABLE", Min: 7, Run: ruleDistTable,
+	register(&Rule{ID: "R-DISTTABLE", Min: 5, Run: ruleDistTable,
 		Doc: "every key of distributiveAggregations is in the algebraically distributive set {sum,min,max,group,count,topk,bottomk}, and the local re-aggregation chosen in Optimize is the identity except count->sum, which must be present whenever count is a key"})
 	register(&Rule{ID: "R-REMOTELOOKBACK", Min: 1, Run: ruleRemoteLookback,
 		Doc: "the query.Options that remote.NewExecution hands to the selector reading remote results has LookbackDelta overridden to zero (the remote engine already applied it)"})
